@@ -118,7 +118,7 @@ inline void __mpz_set_si_safe(mpz_ptr p, mpir_si l)
 {
   if(l < 0)
   {
-    __mpz_set_ui_safe(p, static_cast<mpir_ui>(-l));
+    __mpz_set_ui_safe(p, -static_cast<mpir_ui>(l));
     mpz_neg(p, p);
   }
   else
@@ -164,7 +164,7 @@ inline void __mpz_set_si_safe(mpz_ptr p, mpir_si l)
 inline mpir_ui __gmpxx_abs_ui (mpir_si l)
 {
   return l >= 0 ? static_cast<mpir_ui>(l)
-	  : static_cast<mpir_ui>(-l);
+	  : -static_cast<mpir_ui>(l);
 }
 
 /**************** Function objects ****************/
@@ -215,7 +215,7 @@ struct __gmp_binary_plus
     if (l >= 0)
       eval(z, w, static_cast<mpir_ui>(l));
     else
-      mpz_sub_ui(z, w, static_cast<mpir_ui>(-l));
+      mpz_sub_ui(z, w, -static_cast<mpir_ui>(l));
   }
   static void eval(mpz_ptr z, mpir_si l, mpz_srcptr w)
   { eval(z, w, l); }
@@ -288,7 +288,7 @@ struct __gmp_binary_plus
     if (l >= 0)
       mpf_add_ui(f, g, l);
     else
-      mpf_sub_ui(f, g, static_cast<mpir_ui>(-l));
+      mpf_sub_ui(f, g, -static_cast<mpir_ui>(l));
   }
   static void eval(mpf_ptr f, mpir_si l, mpf_srcptr g)
   { eval(f, g, l); }
@@ -332,7 +332,7 @@ struct __gmp_binary_minus
     if (l >= 0)
       eval(z, w, static_cast<mpir_ui>(l));
     else
-      mpz_add_ui(z, w, static_cast<mpir_ui>(-l));
+      mpz_add_ui(z, w, -static_cast<mpir_ui>(l));
   }
   static void eval(mpz_ptr z, mpir_si l, mpz_srcptr w)
   {
@@ -340,7 +340,7 @@ struct __gmp_binary_minus
       eval(z, static_cast<mpir_ui>(l), w);
     else
       {
-        mpz_add_ui(z, w, static_cast<mpir_ui>(-l));
+        mpz_add_ui(z, w, -static_cast<mpir_ui>(l));
         mpz_neg(z, z);
       }
   }
@@ -377,7 +377,7 @@ struct __gmp_binary_minus
     if (l >= 0)
       eval(q, r, static_cast<mpir_ui>(l));
     else
-      __gmp_binary_plus::eval(q, r, static_cast<mpir_ui>(-l));
+      __gmp_binary_plus::eval(q, r, -static_cast<mpir_ui>(l));
   }
   static void eval(mpq_ptr q, mpir_si l, mpq_srcptr r)
   { eval(q, r, l); mpq_neg(q, q); }
@@ -424,14 +424,14 @@ struct __gmp_binary_minus
     if (l >= 0)
       mpf_sub_ui(f, g, l);
     else
-      mpf_add_ui(f, g, static_cast<mpir_ui>(-l));
+      mpf_add_ui(f, g, -static_cast<mpir_ui>(l));
   }
   static void eval(mpf_ptr f, mpir_si l, mpf_srcptr g)
   {
     if (l >= 0)
       mpf_sub_ui(f, g, l);
     else
-      mpf_add_ui(f, g, static_cast<mpir_ui>(-l));
+      mpf_add_ui(f, g, -static_cast<mpir_ui>(l));
     mpf_neg(f, f);
   }
   static void eval(mpf_ptr f, mpf_srcptr g, double d)
@@ -459,7 +459,7 @@ __gmp_binary_plus::eval(mpq_ptr q, mpq_srcptr r, mpir_si l)
   if (l >= 0)
     eval(q, r, static_cast<mpir_ui>(l));
   else
-    __gmp_binary_minus::eval(q, r, static_cast<mpir_ui>(-l));
+    __gmp_binary_minus::eval(q, r, -static_cast<mpir_ui>(l));
 }
 
 struct __gmp_binary_lshift
@@ -544,7 +544,7 @@ struct __gmp_binary_multiplies
         eval(z, w, static_cast<mpir_ui>(l));
       else
       {
-        eval(z, w, static_cast<mpir_ui>(-l));
+        eval(z, w, -static_cast<mpir_ui>(l));
 	mpz_neg(z, z);
       }
     }
@@ -592,7 +592,7 @@ struct __gmp_binary_multiplies
         eval(q, r, static_cast<mpir_ui>(l));
       else
       {
-        eval(q, r, static_cast<mpir_ui>(-l));
+        eval(q, r, -static_cast<mpir_ui>(l));
 	mpq_neg(q, q);
       }
     }
@@ -628,7 +628,7 @@ struct __gmp_binary_multiplies
       mpf_mul_ui(f, g, l);
     else
       {
-	mpf_mul_ui(f, g, static_cast<mpir_ui>(-l));
+	mpf_mul_ui(f, g, -static_cast<mpir_ui>(l));
 	mpf_neg(f, f);
       }
   }
@@ -696,7 +696,7 @@ struct __gmp_binary_divides
       eval(z, w, static_cast<mpir_ui>(l));
     else
       {
-	eval(z, w, static_cast<mpir_ui>(-l));
+	eval(z, w, -static_cast<mpir_ui>(l));
 	mpz_neg(z, z);
       }
   }
@@ -718,7 +718,7 @@ struct __gmp_binary_divides
       {
         /* if w is bigger than a long then the quotient must be zero, unless
            l==LONG_MIN and w==-LONG_MIN in which case the quotient is -1 */
-        mpz_set_si (z, (mpz_cmpabs_ui (w, (l >= 0 ? l : -l)) == 0 ? -1 : 0));
+        mpz_set_si (z, (mpz_cmpabs_ui (w, __gmpxx_abs_ui(l)) == 0 ? -1 : 0));
       }
   }
   static void eval(mpz_ptr z, mpz_srcptr w, double d)
@@ -751,7 +751,7 @@ struct __gmp_binary_divides
         eval(q, r, static_cast<mpir_ui>(l));
       else
       {
-        eval(q, r, static_cast<mpir_ui>(-l));
+        eval(q, r, -static_cast<mpir_ui>(l));
 	mpq_neg(q, q);
       }
     }
@@ -793,7 +793,7 @@ struct __gmp_binary_divides
       mpf_div_ui(f, g, l);
     else
       {
-	mpf_div_ui(f, g, static_cast<mpir_ui>(-l));
+	mpf_div_ui(f, g, -static_cast<mpir_ui>(l));
 	mpf_neg(f, f);
       }
   }
@@ -803,7 +803,7 @@ struct __gmp_binary_divides
       mpf_ui_div(f, l, g);
     else
       {
-	mpf_ui_div(f, static_cast<mpir_ui>(-l), g);
+	mpf_ui_div(f, -static_cast<mpir_ui>(l), g);
 	mpf_neg(f, f);
       }
   }
@@ -852,7 +852,7 @@ struct __gmp_binary_modulus
   }
   static void eval(mpz_ptr z, mpz_srcptr w, mpir_si l)
   {
-    mpz_tdiv_r_ui (z, w, (l >= 0 ? l : -l));
+    mpz_tdiv_r_ui (z, w, __gmpxx_abs_ui(l));
   }
   static void eval(mpz_ptr z, mpir_si l, mpz_srcptr w)
   {
@@ -866,7 +866,7 @@ struct __gmp_binary_modulus
       {
         /* if w is bigger than a long then the remainder is l unchanged,
            unless l==LONG_MIN and w==-LONG_MIN in which case it's 0 */
-        mpz_set_si (z, mpz_cmpabs_ui (w, (l >= 0 ? l : -l)) == 0 ? 0 : l);
+        mpz_set_si (z, mpz_cmpabs_ui (w, __gmpxx_abs_ui(l)) == 0 ? 0 : l);
       }
   }
   static void eval(mpz_ptr z, mpz_srcptr w, double d)
